@@ -101,6 +101,10 @@ def cases(ctx):
         b = [[3 + 2**bits if bits < 64 else 3, 4], [5, 6 - 2**bits if bits < 64 else 6], [1, 2]]
         yield {"kind": "boolean_rows", "a": a, "b": b, "dtype_a": da, "dtype_b": "int64"}
         yield {"kind": "boolean_rows", "a": b, "b": a, "dtype_a": "int64", "dtype_b": da}
+    # tolerances given as powers of ten: `digits=None` must quantise float rows to exactly that many digits
+    for k_ in range(1, 16):
+        for m_ in (1, 2, 5):
+            yield {"kind": "tol_digits", "k": k_, "m": m_}
     if ctx.tier == "thorough":
         yield from blocks_exhaustive()
     while True:
@@ -206,6 +210,23 @@ def run_case(c):
                 "diff": sorted(g.boolean_rows(a, b, np.setdiff1d).tolist())}
     if k == "unique_value_in_row":
         return {"mask": g.unique_value_in_row(np.array(c["rows"], dtype=np.int64)).tolist()}
+    if k == "tol_digits":
+        from trimesh import util, constants
+        dec = float(f"{c['m']}e-{c['k']}")
+        out = {"digits": int(util.decimal_to_digits(dec))}
+        if c["m"] == 1 and c["k"] <= 12:
+            js = [0, 1, 1, 3, 7, 3, 2]
+            rows = np.array([[j * 10.0 ** -c["k"], 1.0] for j in js])
+            old = constants.tol.merge
+            try:
+                constants.tol.merge = dec
+                u, inv = g.unique_rows(rows)
+                out["inverse_classes"] = _classes([int(x) for x in inv])
+                out["expected_classes"] = _classes(js)
+                out["groups"] = _groups(g.group_rows(rows))
+            finally:
+                constants.tol.merge = old
+        return out
     if k == "blocks":
         bl = g.blocks(np.array(c["data"], dtype=np.int64), min_len=c["min_len"],
                       max_len=np.inf if c["max_len"] is None else c["max_len"], wrap=c["wrap"],
@@ -314,6 +335,11 @@ def oracle(c, o):
             once = [v for v in r if r.count(v) == 1]
             if sum(m) != (1 if once else 0) or any(mm and r.count(v) != 1 for v, mm in zip(r, m)):
                 return {"kind": k, "fail": "differs"}
+    elif k == "tol_digits":
+        if o["digits"] != (c["k"] if c["m"] == 1 else c["k"] - 1):
+            return {"kind": k, "fail": "decimal_to_digits", "m": c["m"], "got_minus_k": o["digits"] - c["k"]}
+        if "inverse_classes" in o and o["inverse_classes"] != o["expected_classes"]:
+            return {"kind": k, "fail": "rows-a-tolerance-apart-merged-or-equal-rows-split"}
     elif k == "blocks":
         exp = runs_spec(c["data"], c["min_len"], c["max_len"], c["wrap"], c["only_nonzero"])
         got = o["blocks"]
@@ -332,7 +358,7 @@ def oracle(c, o):
 
 def model_request(c, o):
     k = c["kind"]
-    if k == "unique_rows_float":
+    if k in ("unique_rows_float", "tol_digits"):      # float quantisation: judged by the oracle only (no model)
         return None
     r = {"p": "C06", "op": k}
     r.update({x: v for x, v in c.items() if x != "kind"})
